@@ -282,7 +282,7 @@ def _assigned_variant(body, rv):
     return None
 
 
-def _reach_with_fact(prog, body, site_bb, place, bad, cap=4000):
+def _reach_with_fact(prog, body, site_bb, place, bad, cap=60000):
     """Path-sensitive search: can the site be reached with `place` possibly having discriminant `bad`?
     Tracks discriminant facts for every Option/Result place that is tested in the function (so that
     correlated tests such as `a.is_none() && b.is_none()` are understood).  Returns False when
